@@ -150,7 +150,7 @@ func (st *SlimTrie) GetID(key string) int32 {
 		}
 
 		if qr.hasInnerPrefix {
-			r := bitstr.StrCmpUpto(key[i>>3:], qr.innerPrefix)
+			r := strCmpUpto(key[i>>3:], qr.innerPrefix)
 			if r != 0 {
 				return -1
 			}
@@ -206,6 +206,20 @@ func (st *SlimTrie) GetID(key string) int32 {
 	return eqID
 }
 
+// strCmpUpto compares the key tail a with the bit-string b, a being truncated
+// upto the length of b, like bitstr.StrCmpUpto.
+//
+// bitstr.StrCmpUpto casts the string header to a slice header, which leaves the
+// capacity of the slice undefined, and bitstr.CmpUpto panics on re-slicing it if
+// the word following the string header happens to be small (seen with -race and
+// -gcflags=-N). Only the first len(b)-1 bytes of a are compared, copy just those.
+func strCmpUpto(a string, b []byte) int {
+	if n := len(b) - 1; n >= 0 && len(a) > n {
+		a = a[:n]
+	}
+	return bitstr.CmpUpto([]byte(a), b)
+}
+
 func (st *SlimTrie) cmpLeafPrefix(tail string, qr *querySession) int32 {
 
 	if st.inner.LeafPrefixes != nil {
@@ -252,7 +266,7 @@ func (st *SlimTrie) searchID(key string) (lID, eqID, rID int32) {
 		}
 
 		if qr.hasInnerPrefix {
-			r := bitstr.StrCmpUpto(key[i>>3:], qr.innerPrefix)
+			r := strCmpUpto(key[i>>3:], qr.innerPrefix)
 			if r == 0 {
 				i = i&(^7) + qr.innerPrefixLen
 			} else if r < 0 {
